@@ -73,6 +73,11 @@ func (db *DB) checkAndCleanFiles() error {
 				tmap[fd.Num] = true
 				nt++
 			}
+		case storage.TypeTemp:
+			// Only Recover creates temporary files (rebuilt tables, renamed
+			// into place before the DB is opened): whatever is found here is
+			// the residue of an interrupted Recover.
+			keep = false
 		}
 
 		if !keep {
